@@ -495,6 +495,13 @@ def read_comment(rf, rh, env):
     lim = env.ev(g.group(3)) + (1 if g.group(2) == "<=" else 0)   # number of iterations the guard admits
     if len(re.findall(r"\b" + g.group(1) + r"\s*\+\+|\+\+\s*" + g.group(1) + r"\b", b)) != 2:
         raise ValueError("ReadComment: both non-terminating branches must count (`<counter>++` twice)")
+    # the counter starts again at the end of the loop body while the stream is good (the model's `commentLoop` has this
+    # restart built in: the limit only ends the loop once the input has ended inside the comment)
+    cnt = g.group(1)
+    w = _ws(b)
+    if not re.search(r"\}if\(" + cnt + r">" + re.escape(_ws(g.group(3))) + r"&&in\.good\(\)\)\{" + cnt + r"=0;\}\}", w):
+        raise ValueError("ReadComment: the restart of the counter at the end of the loop body "
+                         "(`if( <counter> > MAX_COMMENT_LENGTH && in.good() ) <counter> = 0;`) was not found")
     return int(m.group(1)), lim
 
 
